@@ -188,6 +188,59 @@ func funcValueName(v ssa.Value) string {
 	return ""
 }
 
+// registeredSources: the exported values (variable or constructor names) a registration argument can denote: the
+// value itself, or each element of the literal or package-level table a registration loop ranges over.
+func registeredSources(p *Prog, arg ssa.Value, depth int) []string {
+	if depth > 4 {
+		return nil
+	}
+	switch x := arg.(type) {
+	case *ssa.MakeInterface:
+		return registeredSources(p, x.X, depth+1)
+	case *ssa.ChangeInterface:
+		return registeredSources(p, x.X, depth+1)
+	case *ssa.Call:
+		if sc := x.Call.StaticCallee(); sc != nil {
+			return []string{sc.Name()}
+		}
+	case *ssa.Phi:
+		var out []string
+		for _, e := range x.Edges {
+			out = append(out, registeredSources(p, e, depth+1)...)
+		}
+		return out
+	case *ssa.UnOp:
+		if x.Op != token.MUL {
+			return nil
+		}
+		switch y := x.X.(type) {
+		case *ssa.Global:
+			return []string{y.Name()}
+		case *ssa.IndexAddr:
+			// element of a table that a loop ranges over
+			var elems []ssa.Value
+			switch base := y.X.(type) {
+			case *ssa.Alloc:
+				elems = arrayLiteralElems(base)
+			case *ssa.Slice:
+				if al, ok := base.X.(*ssa.Alloc); ok {
+					elems = arrayLiteralElems(al)
+				}
+			case *ssa.UnOp:
+				if g, ok := base.X.(*ssa.Global); ok && base.Op == token.MUL {
+					elems, _ = p.globalSliceElems(g)
+				}
+			}
+			var out []string
+			for _, e := range elems {
+				out = append(out, registeredSources(p, e, depth+1)...)
+			}
+			return out
+		}
+	}
+	return nil
+}
+
 func ruleC10(r *Report) {
 	p := r.P
 	sc := NewScope(p, r.Tier)
@@ -229,34 +282,22 @@ func ruleC10(r *Report) {
 				if nm != "RegisterDecrypter" && nm != "RegisterDigestMethod" {
 					continue
 				}
-				src := ""
-				arg := c.Call.Args[0]
-				if mi, ok := arg.(*ssa.MakeInterface); ok {
-					arg = mi.X
+				srcs := registeredSources(p, c.Call.Args[0], 0)
+				if len(srcs) == 0 {
+					srcs = []string{""}
 				}
-				if ci, ok := arg.(*ssa.ChangeInterface); ok {
-					arg = ci.X
-				}
-				switch x := arg.(type) {
-				case *ssa.UnOp:
-					if g, ok := x.X.(*ssa.Global); ok {
-						src = g.Name()
+				for _, src := range srcs {
+					av, ok := byName[src]
+					if !ok {
+						r.Undecided("C10.registry", fmt.Sprintf("registration at %s", p.InstrPos(in)), p.InstrPos(in), "the registered value could not be resolved to an exported algorithm value: "+src)
+						continue
 					}
-				case *ssa.Call:
-					if x.Call.StaticCallee() != nil {
-						src = x.Call.StaticCallee().Name()
+					uri, _ := constStr(av.Fields["algorithm"])
+					if nm == "RegisterDecrypter" {
+						regDec[uri] = append(regDec[uri], av.Name)
+					} else {
+						regDig[uri] = append(regDig[uri], av.Name)
 					}
-				}
-				av, ok := byName[src]
-				if !ok {
-					r.Undecided("C10.registry", fmt.Sprintf("registration at %s", p.InstrPos(in)), p.InstrPos(in), "the registered value could not be resolved to an exported algorithm value: "+src)
-					continue
-				}
-				uri, _ := constStr(av.Fields["algorithm"])
-				if nm == "RegisterDecrypter" {
-					regDec[uri] = append(regDec[uri], av.Name)
-				} else {
-					regDig[uri] = append(regDig[uri], av.Name)
 				}
 			}
 		}
@@ -438,7 +479,7 @@ func checkC10Framing(r *Report, p *Prog) {
 		enc := p.MustFunc("xmlenc", tn, "Encrypt")
 		dec := p.MustFunc("xmlenc", tn, "Decrypt")
 		ae, ad := NewAnalysis(p), NewAnalysis(p)
-		fe, fd := ae.Ctx(enc), ad.Ctx(dec)
+		fe := ae.Ctx(enc)
 		r.Fn(p.FnName(enc))
 		r.Fn(p.FnName(dec))
 		// the cipher call on each side
@@ -482,28 +523,99 @@ func checkC10Framing(r *Report, p *Prog) {
 				r.Check(okN, "C10.flow", fmt.Sprintf("%s: nonce operand of Seal is never the nil parameter", p.FnName(enc)), p.InstrPos(encCall), "generated buffer on the nil path", "when the caller passes no nonce, the nil slice itself is handed to Seal (the generated nonce is assigned to a shadowed variable)")
 			}
 		}
-		// framing: what Decrypt strips vs what Encrypt prepends
+		// framing: what Decrypt strips vs what Encrypt prepends. Decrypt side: the IV/nonce operand of the cipher is a
+		// prefix x[:S] of the received bytes. Encrypt side: the emitted buffer starts with the IV/nonce of size S, in
+		// one of the forms append(iv, out...), iv = buf[:S] with the cipher writing to buf[S:], or copy(buf, iv) with
+		// the cipher writing to buf[S:].
 		var stripped []string
-		for _, b := range dec.Blocks {
-			for _, in := range b.Instrs {
-				if sl, ok := in.(*ssa.Slice); ok && sl.Low == nil && sl.High != nil {
-					if _, isConst := sl.High.(*ssa.Const); !isConst || true {
-						stripped = append(stripped, sizeSuffix(fd.AP(sl.High)))
+		for _, f := range helperRegion(p, dec, 2) {
+			fx := ad.Ctx(f)
+			for _, b := range f.Blocks {
+				for _, in := range b.Instrs {
+					c, ok := in.(*ssa.Call)
+					if !ok {
+						continue
+					}
+					var ivOp ssa.Value
+					switch calleeName(&c.Call) {
+					case "crypto/cipher.NewCBCDecrypter":
+						ivOp = c.Call.Args[1]
+					case "(crypto/cipher.AEAD).Open":
+						ivOp = c.Call.Args[1]
+					}
+					if ivOp == nil {
+						continue
+					}
+					if _, isMake := ivOp.(*ssa.MakeSlice); isMake {
+						continue
+					}
+					if sz := sliceLenAP(fx, ivOp); sz != "" {
+						stripped = append(stripped, sizeSuffix(sz))
 					}
 				}
 			}
 		}
 		var prepended []string
-		for _, b := range enc.Blocks {
-			for _, in := range b.Instrs {
-				c, ok := in.(*ssa.Call)
-				if !ok {
-					continue
-				}
-				if bi, ok := c.Call.Value.(*ssa.Builtin); ok && bi.Name() == "append" {
-					if ms, ok := c.Call.Args[0].(*ssa.MakeSlice); ok {
-						prepended = append(prepended, sizeSuffix(fe.AP(ms.Len)))
+		for _, f := range helperRegion(p, enc, 2) {
+			fx := ae.Ctx(f)
+			var ivOp, dst ssa.Value
+			for _, b := range f.Blocks {
+				for _, in := range b.Instrs {
+					c, ok := in.(*ssa.Call)
+					if !ok {
+						continue
 					}
+					switch calleeName(&c.Call) {
+					case "crypto/cipher.NewCBCEncrypter":
+						ivOp = c.Call.Args[1]
+					case "(crypto/cipher.BlockMode).CryptBlocks":
+						dst = c.Call.Args[0]
+					case "(crypto/cipher.AEAD).Seal":
+						ivOp, dst = c.Call.Args[1], c.Call.Args[0]
+					}
+				}
+			}
+			if ivOp == nil {
+				continue
+			}
+			// form 1: append(iv, out...)
+			for _, b := range f.Blocks {
+				for _, in := range b.Instrs {
+					c, ok := in.(*ssa.Call)
+					if !ok {
+						continue
+					}
+					bi, ok := c.Call.Value.(*ssa.Builtin)
+					if !ok {
+						continue
+					}
+					if bi.Name() == "append" && (c.Call.Args[0] == ivOp || fx.AP(c.Call.Args[0]) == fx.AP(ivOp)) {
+						if sz := sliceLenAP(fx, ivOp); sz != "" {
+							prepended = append(prepended, sizeSuffix(sz))
+						}
+					}
+				}
+			}
+			// forms 2 and 3: the cipher writes to buf[S:] and the first S bytes of buf are the IV
+			if sl, ok := dst.(*ssa.Slice); ok && sl.Low != nil && sl.High == nil {
+				buf, off := fx.AP(sl.X), fx.AP(sl.Low)
+				filled := fx.AP(ivOp) == buf+"[:"+off+"]"
+				for _, b := range f.Blocks {
+					for _, in := range b.Instrs {
+						c, ok := in.(*ssa.Call)
+						if !ok {
+							continue
+						}
+						if bi, ok := c.Call.Value.(*ssa.Builtin); ok && bi.Name() == "copy" {
+							to, from := fx.AP(c.Call.Args[0]), fx.AP(c.Call.Args[1])
+							if (to == buf || to == buf+"[:"+off+"]") && from == fx.AP(ivOp) && sliceLenAP(fx, ivOp) == off {
+								filled = true
+							}
+						}
+					}
+				}
+				if filled {
+					prepended = append(prepended, sizeSuffix(off))
 				}
 			}
 		}
@@ -559,25 +671,25 @@ func checkC10Digest(r *Report, p *Prog) {
 	rule := "C10.digest"
 	fn := p.MustFunc("xmlenc", "RSA", "Decrypt")
 	a := NewAnalysis(p)
+	// helpers of the package are analysed as part of Decrypt (the digest choice may be factored out)
+	a.Inline = func(f *ssa.Function) bool {
+		return f.Pkg == fn.Pkg && f != fn && (f.Object() == nil || !f.Object().Exported())
+	}
 	B := a.B
 	fc := a.Ctx(fn)
 	fc.ensureConds()
 	r.Fn(p.FnName(fn))
 	rej := fc.NotAcceptFormula()
-	// stores to e.DigestMethod
-	var elNil, lookOK string
-	for name, ai := range a.Atoms {
-		_ = ai
-		if strings.HasPrefix(name, "isnil(") && strings.Contains(name, "FindElement#") {
-			elNil = name
-		}
-		if strings.HasPrefix(name, "ok:") && strings.Contains(name, "digestMethods") {
-			lookOK = name
-		}
+	// the values e.DigestMethod can hold when the key decrypter runs: every store to the field, under the condition
+	// that it executes and no later store does; a value computed by a helper is split over the helper's returns
+	type storeAt struct {
+		st  *ssa.Store
+		blk *ssa.BasicBlock
+		idx int
 	}
-	n := 0
+	var stores []storeAt
 	for _, b := range fn.Blocks {
-		for _, in := range b.Instrs {
+		for i, in := range b.Instrs {
 			st, ok := in.(*ssa.Store)
 			if !ok {
 				continue
@@ -586,23 +698,99 @@ func checkC10Digest(r *Report, p *Prog) {
 			if !ok || fieldName(fa.X.Type(), fa.Field) != "DigestMethod" {
 				continue
 			}
-			n++
-			ap := fc.AP(st.Val)
-			cnd := fc.Cond(b)
-			switch {
-			case strings.Contains(ap, "xmlenc.SHA1"):
-				okS := elNil != "" && B.Implies(cnd, B.Var(elNil))
-				r.Check(okS, rule, p.FnName(fn)+": SHA-1 used only when the element has no DigestMethod", p.InstrPos(in), "under DigestMethod element == nil", "SHA-1 is used although the element names a digest method (the named digest is ignored)")
-			case strings.Contains(ap, "digestMethods["):
-				okL := lookOK != "" && B.Implies(cnd, B.Var(lookOK)) && strings.Contains(ap, `SelectAttrValue(c:"Algorithm"`)
-				r.Check(okL, rule, p.FnName(fn)+": digest taken from the registry entry of the element's Algorithm attribute", p.InstrPos(in), ap, "the digest does not come from the registry lookup of DigestMethod/@Algorithm under ok: "+ap)
-			default:
-				r.Bad(rule, p.FnName(fn)+": digest source "+ap, p.InstrPos(in), "the hash handed to the key decrypter has an unexpected source")
+			stores = append(stores, storeAt{st, b, i})
+		}
+	}
+	later := func(x, y storeAt) bool { // y executes after x on some path
+		if x.blk == y.blk {
+			return y.idx > x.idx
+		}
+		return blockReaches(x.blk, y.blk)
+	}
+	type leaf struct {
+		cnd *bddNode
+		ctx *FuncCtx
+		v   ssa.Value
+		at  ssa.Instruction
+	}
+	var leaves []leaf
+	for _, s1 := range stores {
+		cnd := fc.Cond(s1.blk)
+		for _, s2 := range stores {
+			if s2.st != s1.st && later(s1, s2) {
+				cnd = B.And(cnd, B.Not(fc.Cond(s2.blk)))
+			}
+		}
+		if cnd == B.False {
+			continue
+		}
+		val := s1.st.Val
+		var call *ssa.Call
+		idx := 0
+		switch x := val.(type) {
+		case *ssa.Call:
+			call = x
+		case *ssa.Extract:
+			if c, ok := x.Tuple.(*ssa.Call); ok {
+				call, idx = c, x.Index
+			}
+		}
+		if call != nil {
+			if sc := call.Call.StaticCallee(); sc != nil && a.Inline(sc) && len(sc.Blocks) > 0 {
+				sub := fc.inlineCtx(sc, call.Call.Args, call)
+				sub.ensureConds()
+				r.Fn(p.FnName(sc))
+				ei := errIndex(sc)
+				for _, ret := range sub.Returns() {
+					if idx >= len(ret.Results) || (ei >= 0 && !isNilConst(Resolve(ret.Results[ei]))) {
+						continue
+					}
+					leaves = append(leaves, leaf{B.And(cnd, sub.Cond(ret.Block())), sub, Resolve(ret.Results[idx]), ret})
+				}
+				continue
+			}
+		}
+		leaves = append(leaves, leaf{cnd, fc, val, s1.st})
+	}
+	var elNil, lookOK string
+	for _, name := range sortedKeys(a.Atoms) {
+		if strings.HasPrefix(name, "isnil(") && strings.Contains(name, "FindElement#") && atomLooksUp(a.Atoms[name], "DigestMethod") {
+			elNil = name
+		}
+		if strings.HasPrefix(name, "ok:") && strings.Contains(name, "digestMethods") {
+			lookOK = name
+		}
+	}
+	// the use: the call of the key decrypter (a call through a func value that is handed the receiver)
+	useCond := B.True
+	for _, b := range fn.Blocks {
+		for _, in := range b.Instrs {
+			if c, ok := in.(*ssa.Call); ok && c.Call.StaticCallee() == nil && !c.Call.IsInvoke() && len(c.Call.Args) > 0 && strings.HasPrefix(fc.AP(c.Call.Args[0]), "RSA") {
+				useCond = fc.Cond(b)
 			}
 		}
 	}
+	n := 0
+	for _, lf := range leaves {
+		lf.cnd = B.And(lf.cnd, useCond)
+		if lf.cnd == B.False {
+			continue
+		}
+		n++
+		ap := lf.ctx.AP(lf.v)
+		switch {
+		case strings.Contains(ap, "xmlenc.SHA1"):
+			okS := elNil != "" && B.Implies(lf.cnd, B.Var(elNil))
+			r.Check(okS, rule, p.FnName(fn)+": SHA-1 used only when the element has no DigestMethod", p.InstrPos(lf.at), "under DigestMethod element == nil", "SHA-1 is used although the element names a digest method (the named digest is ignored)")
+		case strings.Contains(ap, "digestMethods["):
+			okL := lookOK != "" && B.Implies(lf.cnd, B.Var(lookOK)) && strings.Contains(ap, `SelectAttrValue(c:"Algorithm"`)
+			r.Check(okL, rule, p.FnName(fn)+": digest taken from the registry entry of the element's Algorithm attribute", p.InstrPos(lf.at), ap, "the digest does not come from the registry lookup of DigestMethod/@Algorithm under ok: "+ap)
+		default:
+			r.Bad(rule, p.FnName(fn)+": digest source "+ap, p.InstrPos(lf.at), "the hash handed to the key decrypter has an unexpected source")
+		}
+	}
 	if n < 2 {
-		r.Bad(rule, p.FnName(fn)+": digest selection", p.Pos(fn.Pos()), fmt.Sprintf("%d assignments of the digest method (expected the default and the looked-up one)", n))
+		r.Bad(rule, p.FnName(fn)+": digest selection", p.Pos(fn.Pos()), fmt.Sprintf("%d values of the digest method (expected the default and the looked-up one)", n))
 	}
 	if lookOK != "" {
 		miss := B.Not(B.Var(lookOK))
